@@ -156,6 +156,14 @@ Theorem C12_finish_sites_match_model : finish_sites = expected_sites.
 Proof. vm_compute. reflexivity. Qed.
 Print Assumptions C12_finish_sites_match_model.
 
+(** (9) The hypotheses of the prefix theorems are satisfiable for EVERY build: the sequential program (Parallelism = 1:
+    writeShard per new shard, then one JsonMarshalRepoMetaTemp per old shard for delta builds), renames and deletes in
+    list order, is a fault-free run. *)
+Theorem C12_sequential_build_is_a_run : forall b,
+  ff_run b (write_phase b) (artifacts b) (todel_after b (artifacts b) nofault).
+Proof. exact sequential_build_is_ff_run. Qed.
+Print Assumptions C12_sequential_build_is_a_run.
+
 (** ---- non-vacuity: concrete fault-free runs satisfying the hypotheses *)
 Ltac perm_conc :=
   vm_compute; apply NoDup_Permutation;
